@@ -6,6 +6,7 @@ import (
 	"sort"
 
 	"github.com/ja7ad/otp"
+	"github.com/ja7ad/otp/internal/verifh"
 	"pgregory.net/rapid"
 )
 
@@ -590,7 +591,11 @@ func GenPlan(t *rapid.T, prop string) *Plan {
 	fn := rapid.SampledFrom([]int{10, 20, 32, 64, 65, 80, 128, 200}).Draw(t, "familyLen")
 	family = rapid.SliceOfN(rapid.Byte(), fn, fn).Draw(t, "family")
 	p.BaseSec, p.BaseNsec = genBase(t)
-	na := rapid.IntRange(1, 4).Draw(t, "nAccounts")
+	maxAcc := 4
+	if verifh.Thorough() {
+		maxAcc = 8
+	}
+	na := rapid.IntRange(1, maxAcc).Draw(t, "nAccounts")
 	for i := 0; i < na; i++ {
 		var kind string
 		switch prop {
@@ -605,7 +610,11 @@ func GenPlan(t *rapid.T, prop string) *Plan {
 		}
 		p.Accounts = append(p.Accounts, genAccount(t, prop, kind))
 	}
-	ne := rapid.IntRange(1, 40).Draw(t, "nEvents")
+	maxEv := 40
+	if verifh.Thorough() && weighted(t, "longRun?", 3, 1) == 1 {
+		maxEv = 250 // thorough tier: a quarter of the runs are long histories
+	}
+	ne := rapid.IntRange(1, maxEv).Draw(t, "nEvents")
 	for i := 0; i < ne; i++ {
 		p.Events = append(p.Events, genEvent(t, prop, p.Accounts))
 	}
